@@ -675,7 +675,9 @@ Record wf_facts (c : agg_config) : Prop := {
   wf_oct : forall e, In e (stat_triples c) -> octet_names_ok e = true;
   wf_has_oct : In "octetTotalCount" (c_stats c);
   wf_has_roct : In "reverseOctetTotalCount" (c_stats c);
-  wf_no_http : ~ In "httpVals" (c_nonstats c) }.
+  wf_no_http : ~ In "httpVals" (c_nonstats c);
+  wf_spod : ~ In "sourcePodName" (added_names c);
+  wf_dpod : ~ In "destinationPodName" (added_names c) }.
 
 Lemma wf_config_facts : forall c, wf_config c = true -> wf_facts c.
 Proof.
@@ -698,6 +700,8 @@ Proof.
   - apply mem_In. assumption.
   - apply mem_In. assumption.
   - apply negb_true_iff in W. apply mem_false. assumption.
+  - apply negb_true_iff in H. apply mem_false. assumption.
+  - apply negb_true_iff in W14. apply mem_false. assumption.
 Qed.
 
 (* ---------------------------------------------------------------- typed templates *)
@@ -1340,7 +1344,8 @@ Qed.
 Lemma create_refines : forall c inc fs fd,
   wf_config c = true -> typed_shape c (shape inc) = true ->
   exists r2, (ado r1 <- add_fields_for_stats c inc fs fd; add_fields_for_throughput c r1 fs fd) = AOk r2 /\
-    stored_ok c (shape inc) r2 /\ abs c r2 = spec_create c fs fd (obs_of c inc).
+    stored_ok c (shape inc) r2 /\ abs c r2 = spec_create c fs fd (obs_of c inc) /\
+    (forall n, ~ In n (added_names c) -> get r2 n = get inc n).
 Proof.
   intros c inc fs fd WF TS.
   pose proof (wf_config_facts c WF) as W. pose proof (typed_shape_facts c _ TS) as T.
@@ -1420,7 +1425,13 @@ Proof.
     assert (Nadd : ~ In n (added_names c)) by (intro H; rewrite (ABS n H) in Hv; discriminate).
     rewrite FR2 by (intro H; apply Nadd; apply TT; assumption).
     rewrite GE. rewrite FR1 by (intro H; apply Nadd; apply AB; assumption). rewrite Hv. reflexivity. }
-  exists r2. split; [|split].
+  exists r2. split; [|split; [|split]].
+  4:{ intros n Hn.
+      rewrite FR2 by (intro H; apply Hn; apply TT; assumption).
+      rewrite GE. rewrite FR1 by (intro H; apply Hn; apply AB; assumption).
+      destruct (get inc n); [reflexivity|].
+      rewrite (neq_eqb src_end_name n), (neq_eqb dst_end_name n); [reflexivity | |];
+        intro; subst n; apply Hn; apply (in_added c 3); try lia; assumption. }
   - unfold add_fields_for_stats. rewrite (wf_nil c W). unfold stat_triples. rewrite P1. cbn [abind].
     unfold add_fields_for_throughput. rewrite (wf_nil c W). unfold rd_field.
     rewrite G1s, G1e, G1o, G1r. cbn [get_u32 get_u64 abind].
@@ -1483,4 +1494,285 @@ Proof.
       rewrite (FR1seg 7%nat) by (first [discriminate | in_seg]). destruct (get inc "tcpState"); reflexivity. }
     rewrite GR, GT. rewrite !map_map. unfold v1, v2.
     destruct fs, fd; reflexivity.
+Qed.
+
+(* ---------------------------------------------------------------- keys and the flow map *)
+Lemma bytes_eqb_eq : forall a b, bytes_eqb a b = true <-> a = b.
+Proof.
+  induction a; destruct b; simpl; split; intros; try discriminate; try reflexivity.
+  - apply andb_prop in H. destruct H as [H1 H2]. apply Byte.byte_dec_bl in H1. apply IHa in H2. subst. reflexivity.
+  - inversion H; subst. rewrite (Byte.byte_dec_lb eq_refl). simpl. apply IHa. reflexivity.
+Qed.
+Lemma key_eqb_eq : forall a b, key_eqb a b = true <-> a = b.
+Proof.
+  intros [[[[s1 d1] p1] sp1] dp1] [[[[s2 d2] p2] sp2] dp2]. unfold key_eqb. split; intro H.
+  - repeat (apply andb_prop in H; let X := fresh in destruct H as [H X]).
+    apply bytes_eqb_eq in H. apply bytes_eqb_eq in H3. apply N.eqb_eq in H2, H1, H0. subst. reflexivity.
+  - inversion H; subst. rewrite !N.eqb_refl. rewrite (proj2 (bytes_eqb_eq s2 s2) eq_refl).
+    rewrite (proj2 (bytes_eqb_eq d2 d2) eq_refl). reflexivity.
+Qed.
+Lemma key_eqb_refl : forall k, key_eqb k k = true.
+Proof. intros. apply key_eqb_eq. reflexivity. Qed.
+Lemma key_eqb_neq : forall a b, key_eqb a b = false <-> a <> b.
+Proof.
+  intros. split; intro H.
+  - intro E. apply key_eqb_eq in E. congruence.
+  - destruct (key_eqb a b) eqn:E; [|reflexivity]. apply key_eqb_eq in E. contradiction.
+Qed.
+
+Lemma lookup_update_same : forall m k f, lookup (update m k f) k = Some f.
+Proof.
+  induction m as [|[k' f'] t IH]; intros; simpl.
+  - rewrite key_eqb_refl. reflexivity.
+  - destruct (key_eqb k' k) eqn:E; simpl; rewrite E; [reflexivity | apply IH].
+Qed.
+Lemma lookup_update_other : forall m k f k', k' <> k -> lookup (update m k f) k' = lookup m k'.
+Proof.
+  induction m as [|[k0 f0] t IH]; intros k f k' N; simpl.
+  - rewrite (proj2 (key_eqb_neq k k')) by congruence. reflexivity.
+  - destruct (key_eqb k0 k) eqn:E; simpl.
+    + apply key_eqb_eq in E. subst k0. rewrite (proj2 (key_eqb_neq k k')) by congruence. reflexivity.
+    + destruct (key_eqb k0 k'); [reflexivity | apply IH; assumption].
+Qed.
+
+Lemma shape_eqb_eq : forall a b, shape_eqb a b = true -> a = b.
+Proof.
+  induction a as [|[n k] a IH]; destruct b as [|[m j] b]; simpl; intros; try discriminate; try reflexivity.
+  apply andb_prop in H. destruct H as [H H3]. apply andb_prop in H. destruct H as [H1 H2].
+  apply String.eqb_eq in H1. apply kind_eqb_eq in H2. subst. f_equal. apply IH. assumption.
+Qed.
+
+(* ---------------------------------------------------------------- node classification never fails on typed templates *)
+Definition pods_ok (r : record) : Prop :=
+  (kind_at (shape r) "sourcePodName" = None \/ kind_at (shape r) "sourcePodName" = Some KStr) /\
+  (kind_at (shape r) "destinationPodName" = None \/ kind_at (shape r) "destinationPodName" = Some KStr).
+
+Lemma opt_str : forall r n, (kind_at (shape r) n = None \/ kind_at (shape r) n = Some KStr) ->
+  get r n = None \/ exists s, get r n = Some (AStr s).
+Proof.
+  intros r n [H|H]; rewrite kind_at_shape in H.
+  - left. destruct (get r n); [discriminate | reflexivity].
+  - right. destruct (get r n) as [[]|]; simpl in H; try discriminate. eexists; reflexivity.
+Qed.
+Lemma opt_u8 : forall r n, (kind_at (shape r) n = None \/ kind_at (shape r) n = Some KU8) ->
+  get r n = None \/ exists s, get r n = Some (AU8 s).
+Proof.
+  intros r n [H|H]; rewrite kind_at_shape in H.
+  - left. destruct (get r n); [discriminate | reflexivity].
+  - right. destruct (get r n) as [[]|]; simpl in H; try discriminate. eexists; reflexivity.
+Qed.
+
+Lemma from_src_ok : forall r, pods_ok r -> exists b, is_record_from_src r = AOk b.
+Proof.
+  intros r [H1 H2]. unfold is_record_from_src.
+  destruct (opt_str r _ H1) as [E|[s E]]; rewrite E; [eexists; reflexivity|]. simpl.
+  destruct (String.eqb s ""); [eexists; reflexivity|].
+  destruct (opt_str r _ H2) as [F|[t F]]; rewrite F; eexists; reflexivity.
+Qed.
+Lemma from_dst_ok : forall r, pods_ok r -> exists b, is_record_from_dst r = AOk b.
+Proof.
+  intros r [H1 H2]. unfold is_record_from_dst.
+  destruct (opt_str r _ H2) as [E|[s E]]; rewrite E; [eexists; reflexivity|]. simpl.
+  destruct (String.eqb s ""); [eexists; reflexivity|].
+  destruct (opt_str r _ H1) as [F|[t F]]; rewrite F; eexists; reflexivity.
+Qed.
+Lemma same_node_ok : forall r1 r2, pods_ok r1 -> pods_ok r2 -> exists b, are_records_from_same_node r1 r2 = AOk b.
+Proof.
+  intros r1 r2 P1 P2. unfold are_records_from_same_node.
+  destruct (from_src_ok r1 P1) as [a1 E1]. destruct (from_src_ok r2 P2) as [a2 E2].
+  destruct (from_dst_ok r1 P1) as [b1 F1]. destruct (from_dst_ok r2 P2) as [b2 F2].
+  rewrite E1. simpl. destruct a1; simpl.
+  - rewrite E2. simpl. destruct a2; [eexists; reflexivity|]. rewrite F1. simpl.
+    destruct b1; [rewrite F2|]; eexists; reflexivity.
+  - rewrite F1. simpl. destruct b1; [rewrite F2|]; eexists; reflexivity.
+Qed.
+Lemma corr_req_ok : forall ft r,
+  (kind_at (shape r) "egressNetworkPolicyRuleAction" = None \/ kind_at (shape r) "egressNetworkPolicyRuleAction" = Some KU8) ->
+  (kind_at (shape r) "ingressNetworkPolicyRuleAction" = None \/ kind_at (shape r) "ingressNetworkPolicyRuleAction" = Some KU8) ->
+  exists b, is_correlation_required ft r = AOk b.
+Proof.
+  intros ft r H1 H2. unfold is_correlation_required.
+  destruct (N.eqb ft flow_type_inter_node); [|eexists; reflexivity].
+  destruct (opt_u8 r _ H1) as [E|[s E]]; rewrite E; simpl.
+  - destruct (opt_u8 r _ H2) as [F|[t F]]; rewrite F; eexists; reflexivity.
+  - destruct (N.eqb s rule_action_drop || N.eqb s rule_action_reject); [eexists; reflexivity|].
+    destruct (opt_u8 r _ H2) as [F|[t F]]; rewrite F; eexists; reflexivity.
+Qed.
+
+(* ---------------------------------------------------------------- correlateRecords only touches the correlate fields *)
+Lemma correlate_field_ok : forall inc ex f,
+  (forall k, kind_at (shape inc) f = Some k -> kind_at (shape ex) f = Some k) ->
+  exists ex', correlate_field inc ex f = AOk ex' /\ shape ex' = shape ex /\
+              (forall n, n <> f -> get ex' n = get ex n).
+Proof.
+  intros inc ex f H. unfold correlate_field. rewrite !kind_at_shape in H.
+  assert (NOP : exists ex', AOk ex = AOk ex' /\ shape ex' = shape ex /\ (forall n, n <> f -> get ex' n = get ex n))
+    by (exists ex; repeat split; reflexivity).
+  destruct (get inc f) as [v|] eqn:Gi; [|exact NOP].
+  specialize (H _ eq_refl).
+  assert (SET : forall w, kind_of w = kind_of v ->
+            exists ex', AOk (set ex f w) = AOk ex' /\ shape ex' = shape ex /\ (forall n, n <> f -> get ex' n = get ex n)).
+  { intros w Hw. exists (set ex f w). split; [reflexivity|]. split.
+    - apply shape_set. destruct (get ex f) as [u|]; [|exact I]. simpl in H. inversion H. congruence.
+    - intros n Hn. rewrite get_set, (neq_eqb f n) by congruence. reflexivity. }
+  destruct v; simpl in H; try exact NOP.
+  - destruct (N.eqb n 0); [exact NOP|]. unfold set_u8.
+    destruct (get ex f) as [[]|]; simpl in H; try discriminate. apply SET. reflexivity.
+  - destruct (N.eqb n 0); [exact NOP|]. unfold set_u16.
+    destruct (get ex f) as [[]|]; simpl in H; try discriminate. apply SET. reflexivity.
+  - destruct (Z.eqb z 0); [exact NOP|]. unfold set_i32.
+    destruct (get ex f) as [[]|]; simpl in H; try discriminate. apply SET. reflexivity.
+  - destruct (String.eqb s ""); [exact NOP|]. unfold set_str.
+    destruct (get ex f) as [[]|]; simpl in H; try discriminate. apply SET. reflexivity.
+  - destruct (ip4_nonzero b); [|exact NOP]. unfold set_ip.
+    destruct (get ex f) as [[]|]; simpl in H; try discriminate. apply SET. reflexivity.
+  - destruct (ip6_nonzero b); [|exact NOP]. unfold set_ip.
+    destruct (get ex f) as [[]|]; simpl in H; try discriminate. apply SET. reflexivity.
+Qed.
+
+Lemma correlate_loop_ok : forall inc fields ex,
+  (forall f k, In f fields -> kind_at (shape inc) f = Some k -> kind_at (shape ex) f = Some k) ->
+  exists ex', correlate_loop inc ex fields = AOk ex' /\ shape ex' = shape ex /\
+              (forall n, ~ In n fields -> get ex' n = get ex n).
+Proof.
+  intros inc. induction fields as [|f t IH]; intros ex H.
+  - exists ex. repeat split; reflexivity.
+  - destruct (correlate_field_ok inc ex f) as (ex1 & C1 & S1 & F1).
+    { intros k. apply H. left. reflexivity. }
+    destruct (IH ex1) as (ex' & C2 & S2 & F2).
+    { intros g k Hg. rewrite S1. apply H. right. assumption. }
+    exists ex'. split; [|split].
+    + cbn [correlate_loop]. rewrite C1. cbn [abind]. exact C2.
+    + rewrite S2. assumption.
+    + intros n Hn. rewrite F2 by (intro; apply Hn; right; assumption).
+      apply F1. intro; subst; apply Hn; left; reflexivity.
+Qed.
+
+(* ---------------------------------------------------------------- one step of the flow map *)
+Definition stored_ok2 (c : agg_config) (sh0 : list (string * kind)) (ex : record) : Prop :=
+  stored_ok c sh0 ex /\ (forall n, ~ In n (added_names c) -> kind_at (shape ex) n = kind_at sh0 n).
+Lemma stored_ok2_shape : forall c sh0 ex ex', shape ex' = shape ex -> stored_ok2 c sh0 ex -> stored_ok2 c sh0 ex'.
+Proof.
+  unfold stored_ok2. intros c sh0 ex ex' H [H1 H2]. split.
+  - eapply stored_ok_shape; eassumption.
+  - rewrite H. assumption.
+Qed.
+
+Definition absf (c : agg_config) (o : option flow) : option flow_abs :=
+  option_map (fun fl => abs c (fl_rec fl)) o.
+
+Lemma abs_ext : forall c r r', c_flow_end c = [src_end_name; dst_end_name] ->
+  (forall n, In n (all_names c) -> get r' n = get r n) -> abs c r' = abs c r.
+Proof.
+  intros c r r' HFE H.
+  assert (M : forall i, map (vu64 r') (seg c i) = map (vu64 r) (seg c i)).
+  { intros i. apply map_ext_in. intros n Hn. apply vu64_ext. apply H. eapply seg_in_all. eassumption. }
+  assert (F : forall n, In n fixed_names -> get r' n = get r n).
+  { intros n Hn. apply H. apply (seg_in_all c 7). exact Hn. }
+  assert (E : forall n, In n [src_end_name; dst_end_name] -> get r' n = get r n).
+  { intros n Hn. apply H. apply (seg_in_all c 3). unfold seg. simpl. rewrite HFE. exact Hn. }
+  pose proof (M 0%nat) as M0. pose proof (M 1%nat) as M1. pose proof (M 2%nat) as M2.
+  pose proof (M 4%nat) as M4. pose proof (M 5%nat) as M5. pose proof (M 6%nat) as M6.
+  unfold seg in M0, M1, M2, M4, M5, M6. simpl in M0, M1, M2, M4, M5, M6.
+  unfold abs, abs_node. rewrite M0, M1, M2, M4, M5, M6.
+  rewrite (vu32_ext r r' "flowEndSeconds") by (apply F; in_seg).
+  rewrite (vu32_ext r r' src_end_name) by (apply E; in_seg).
+  rewrite (vu32_ext r r' dst_end_name) by (apply E; in_seg).
+  rewrite (F "flowEndReason"), (F "tcpState") by in_seg.
+  reflexivity.
+Qed.
+
+Lemma agg_into_refines : forall c m k fl r fs fd,
+  wf_config c = true -> typed_shape c (shape r) = true -> stored_ok2 c (shape r) (fl_rec fl) ->
+  exists m', agg_into c m k fl r fs fd = (m', SOk) /\
+    absf c (lookup m' k) = Some (spec_agg c (abs c (fl_rec fl)) fs fd (obs_of c r)) /\
+    (forall k', k' <> k -> lookup m' k' = lookup m k') /\
+    (exists fl', lookup m' k = Some fl' /\ stored_ok2 c (shape r) (fl_rec fl')).
+Proof.
+  intros c m k fl r fs fd WF TS [SO SO'].
+  destruct (aggregate_refines c r (fl_rec fl) fs fd WF TS SO) as (ex' & A1 & A2 & A3 & A4).
+  exists (update m k (with_rec fl ex')). unfold agg_into. rewrite A1. split; [reflexivity|].
+  rewrite lookup_update_same. split; [|split].
+  - simpl. rewrite A3. reflexivity.
+  - intros. apply lookup_update_other. assumption.
+  - eexists. split; [reflexivity|]. simpl. eapply stored_ok2_shape; [exact A2 | split; assumption].
+Qed.
+
+Lemma add_or_update_refines : forall c m k r v4,
+  wf_config c = true -> typed_shape c (shape r) = true ->
+  (forall fl, lookup m k = Some fl -> stored_ok2 c (shape r) (fl_rec fl)) ->
+  exists m', add_or_update c m k r v4 = (m', SOk) /\
+    absf c (lookup m' k) =
+      spec_step c (absf c (lookup m k)) (Rec (fst (rec_flags r)) (snd (rec_flags r)) (obs_of c r)) /\
+    (forall k', k' <> k -> lookup m' k' = lookup m k') /\
+    (exists fl', lookup m' k = Some fl' /\ stored_ok2 c (shape r) (fl_rec fl')).
+Proof.
+  intros c m k r v4 WF TS INV.
+  pose proof (wf_config_facts c WF) as W. pose proof (typed_shape_facts c _ TS) as T.
+  set (ft := match get r "flowType" with Some (AU8 n) => n | _ => 0 end).
+  assert (FT : (match get r "flowType" with Some v => get_u8 v | None => AOk 0 end) = AOk ft).
+  { unfold ft. destruct (opt_u8 r _ (ts_ft _ _ T)) as [E|[s E]]; rewrite E; reflexivity. }
+  destruct (corr_req_ok ft r (ts_eg _ _ T) (ts_in _ _ T)) as [corr CR].
+  assert (PR : pods_ok r) by (split; [exact (ts_spod _ _ T) | exact (ts_dpod _ _ T)]).
+  destruct (from_src_ok r PR) as [src SRC].
+  assert (FL : rec_flags r = if corr then (if src then (true, false) else (false, true)) else (true, true)).
+  { unfold rec_flags. fold ft. rewrite CR. destruct corr; [|reflexivity]. rewrite SRC. destruct src; reflexivity. }
+  unfold add_or_update. rewrite FT. cbn [lift_status]. rewrite CR. cbn [lift_status].
+  destruct (lookup m k) as [fl|] eqn:LK.
+  - (* existing flow *)
+    specialize (INV fl eq_refl). cbn [absf option_map spec_step].
+    destruct corr.
+    + assert (PE : pods_ok (fl_rec fl)).
+      { destruct INV as [_ I2]. split.
+        - rewrite (I2 _ (wf_spod c W)). exact (ts_spod _ _ T).
+        - rewrite (I2 _ (wf_dpod c W)). exact (ts_dpod _ _ T). }
+      assert (STEP : exists fl1,
+        lift_status m (if fl_ready fl then AOk false
+                       else ado same <- are_records_from_same_node r (fl_rec fl); AOk (negb same)) (fun need =>
+        lift_status m (if need then
+                         ado ex' <- correlate_records c r (fl_rec fl);
+                         AOk {| fl_rec := ex'; fl_ready := true; fl_retries := fl_retries fl;
+                                fl_filled := true; fl_v4 := fl_v4 fl |}
+                       else AOk fl) (fun fl1 =>
+        lift_status m (is_record_from_src r) (fun src =>
+        agg_into c m k fl1 r src (negb src)))) = agg_into c m k fl1 r src (negb src) /\
+        stored_ok2 c (shape r) (fl_rec fl1) /\ abs c (fl_rec fl1) = abs c (fl_rec fl)).
+      { assert (NOC : exists fl1,
+          lift_status m (AOk fl) (fun fl1 => lift_status m (is_record_from_src r) (fun src =>
+            agg_into c m k fl1 r src (negb src))) = agg_into c m k fl1 r src (negb src) /\
+          stored_ok2 c (shape r) (fl_rec fl1) /\ abs c (fl_rec fl1) = abs c (fl_rec fl)).
+        { exists fl. cbn [lift_status]. rewrite SRC. cbn [lift_status]. repeat split; try reflexivity; apply INV. }
+        destruct (fl_ready fl).
+        - cbn [lift_status]. exact NOC.
+        - destruct (same_node_ok r (fl_rec fl) PR PE) as [same SN]. rewrite SN. cbn [abind lift_status].
+          destruct same; cbn [negb]; [exact NOC|].
+          destruct (correlate_loop_ok r (c_correlate c) (fl_rec fl)) as (exC & C1 & C2 & C3).
+          { intros f kk _ Hk. destruct INV as [[I1 _] _]. apply I1. exact Hk. }
+          unfold correlate_records. rewrite C1. cbn [abind lift_status]. rewrite SRC. cbn [lift_status].
+          eexists. split; [reflexivity|]. cbn [fl_rec]. split.
+          + eapply stored_ok2_shape; [exact C2 | exact INV].
+          + apply abs_ext; [exact (wf_fe c W)|]. intros n Hn. apply C3. intro Hc.
+            exact (wf_corr c W n Hc Hn). }
+      destruct STEP as (fl1 & ST1 & ST2 & ST3). rewrite ST1.
+      destruct (agg_into_refines c m k fl1 r src (negb src) WF TS ST2) as (m' & G1 & G2 & G3 & G4).
+      exists m'. split; [exact G1|]. split; [|split; assumption].
+      rewrite G2, ST3, FL. destruct src; reflexivity.
+    + destruct (agg_into_refines c m k fl r true true WF TS INV) as (m' & G1 & G2 & G3 & G4).
+      exists m'. split; [exact G1|]. split; [|split; assumption]. rewrite G2, FL. reflexivity.
+  - (* new flow *)
+    cbn [absf option_map spec_step].
+    set (fs := if corr then src else true). set (fd := if corr then negb src else true).
+    assert (S1 : (if corr then is_record_from_src r else AOk true) = AOk (if corr then src else true))
+      by (destruct corr; [exact SRC | reflexivity]).
+    rewrite S1. cbn [lift_status].
+    assert (S2 : (if corr then (if corr then src else true) else true) = fs) by (unfold fs; destruct corr; reflexivity).
+    assert (S3 : (if corr then negb (if corr then src else true) else true) = fd) by (unfold fd; destruct corr; reflexivity).
+    rewrite S2, S3.
+    destruct (create_refines c r fs fd WF TS) as (r2 & C1 & C2 & C3 & C4).
+    rewrite C1. cbn [lift_status].
+    eexists. split; [reflexivity|]. rewrite lookup_update_same. split; [|split].
+    + simpl. rewrite C3. rewrite FL. unfold fs, fd. destruct corr; [destruct src|]; reflexivity.
+    + intros. apply lookup_update_other. assumption.
+    + eexists. split; [reflexivity|]. simpl. split; [exact C2|].
+      intros n Hn. rewrite !kind_at_shape. rewrite (C4 n Hn). reflexivity.
 Qed.
